@@ -282,6 +282,22 @@ func runPR(c *Ctx, s *Sink) {
 			if isLenOrConst(as.Rhs[0]) {
 				return true
 			}
+			// a clamp: from = max(from, 0), to = min(to, seq.Len())
+			if cl, ok := ast.Unparen(as.Rhs[0]).(*ast.CallExpr); ok {
+				if id, ok := cl.Fun.(*ast.Ident); ok && (id.Name == "min" || id.Name == "max") {
+					if _, isB := info.ObjectOf(id).(*types.Builtin); isB {
+						clamp := true
+						for _, a := range cl.Args {
+							if !isLenOrConst(a) && rootObj(info, a) != which {
+								clamp = false
+							}
+						}
+						if clamp {
+							return true
+						}
+					}
+				}
+			}
 			fmU, rmU := mentions(as.Rhs[0])
 			if (as.Tok == token.ADD_ASSIGN || as.Tok == token.SUB_ASSIGN) && !fmU && !rmU {
 				return true // an adjustment by an amount that reads neither match (turns * seq.Len())
